@@ -14,6 +14,7 @@ feasibility to 1e-6, cost non-increasing (1e-9 slack), strict decrease when the 
 first-order optimal (projected-gradient residual r > 1e-3 with guaranteed slope r^2/stepsize > 1e-2, and LP gap < -1e-3), repeated steps monotone."""
 from .. import common as C, gen, build
 from .. import gen_solve as G
+from .. import scipy_guard as SG
 from ..check import Prop, Op
 
 
@@ -41,11 +42,13 @@ class C19(Prop):
   assumptions = [
     'both SLSQP calls of step are parameters of the model; the theorems hold under the stated oracle specifications (ProjSpec, LineSpec / LineMinSpec) — level: proof (partial)',
     'status 8 with success=False is accepted by the code (logged only); the specifications are about accepted answers',
+    'models on which SciPy\'s SLSQP is known to corrupt memory (more equality constraints than the variables it works on; vk/scipy_guard.py) are not stepped '
+    'for real: counted as scipy_unsafe_skipped',
   ]
 
   def __init__(self):
     self.ev = {'real_steps': 0, 'raised_optimization_exception': 0, 'strict_checked': 0, 'no_feasible_start': 0, 'repeated_sequences': 0,
-               'max_violation': 0.0, 'stub_runs': 0}
+               'max_violation': 0.0, 'stub_runs': 0, 'scipy_unsafe_skipped': 0}
 
   # ------------------------------------------------------------------ cases
   def stub_case(self, rng, tier, mkind, st_p, ok_p, st_l, ok_l):
@@ -181,7 +184,14 @@ class C19(Prop):
     """minimised past failure: the ascent-sign no-op / rejection of device-shaped starts."""
     d = {'cls': 'IDevice2', 'n': 3, 'lb': ['0']*3, 'hb': ['2']*3, 'cbs': [], 'prm': {'p_l': '-2', 'p_h': '-1'}, '_py': {'bform': 'table', 'cform': None}}
     m = {'tree': {'k': 'leaf', 'id': 'i', 'dev': d}, 'n': 3}
-    return [{'kind': 'real', 'model': m, 'p': '1/2', 'sshape': sh, 'stepsize': '1', 'seed': 7, 'repeat': 3} for sh in ('dev', 'flat')]
+    import json
+    # witnesses of the two listed (open) findings, so that their KNOWN-FINDING lines print on every run:
+    # F3: utils.project answers the start point with success on an MF tree whose adaptor constraints make the active set
+    #     degenerate; step 2 is a silent no-op (found at thorough seed 403)
+    f3 = json.loads('{"kind": "real", "model": {"tree": {"k": "node", "id": "root", "sb": [["183/32", "221/32"], ["83/16", "25/4"], ["15/2", "159/16"]], "ch": [{"k": "leaf", "id": "h1", "dev": {"cls": "Device", "n": 3, "lb": ["3/2", "3/4", "3"], "hb": ["3/2", "3/4", "17/4"], "cbs": [["3/2", "15/8", 0, 1], ["3/4", "9/8", 1, 2], ["111/32", "17/4", 2, 3]], "prm": {}, "_py": {"bform": "pair", "cform": "4tuples"}}}, {"k": "mf", "id": "m2", "dev": {"cls": "CDevice", "n": 3, "lb": ["1", "3/4", "5/4"], "hb": ["1", "3/4", "5/4"], "cbs": [["1", "11/8", 0, 1], ["2", "9/4", 1, 3]], "prm": {"a": "-1/4", "b": "3/2"}, "_py": {"bform": "table", "cform": "4tuples"}}, "flows": ["e", "h"], "ratios": ["11/4", "11/4"], "ctype": "ineq"}, {"k": "leaf", "id": "h3", "dev": {"cls": "CDevice2", "n": 3, "lb": ["5/4", "5/4", "5/4"], "hb": ["4", "4", "4"], "cbs": [["219/32", "159/16", 0, 3]], "prm": {"p_l": "-9/4", "p_h": "-1"}, "_py": {"bform": "scalar", "cform": "2tuple"}}}], "sub": false}, "n": 3}, "p": [["-3/8", "1/4", "1/4"], ["-1/4", "7/4", "-17/8"], ["1/8", "11/8", "5/8"], ["11/8", "-3/2", "-3/8"]], "sshape": "dev", "stepsize": "1/2", "seed": 484437361, "repeat": 4, "start": ["1.5000000000000002", "0.7500000000000001", "3.594632874115084", "0.5600769416315701", "0.3946726066792741", "1.1795503777120864", "0.4399230583684301", "0.355327393320726", "0.07044962228791385", "3.3187130546622456", "3.6875", "2.9312869453377552"], "family": "corpus"}')
+    # F4: the projection answers success=False / status 8, step accepts it and returns a flow violating an aggregate equality by ~3e-6
+    f4 = json.loads('{"kind": "real", "model": {"tree": {"k": "node", "id": "root", "sb": [["1/8", "31/32"], ["-5/4", "7/2"], ["-97/32", "-1/8"], ["-19/16", "-21/32"], ["15/16", "15/16"], ["-9/4", "-13/16"]], "ch": [{"k": "leaf", "id": "a1", "dev": {"cls": "Device", "n": 6, "lb": ["-4", "-4", "-4", "-4", "-4", "-4"], "hb": ["0", "0", "0", "0", "0", "0"], "cbs": [], "prm": {}, "_py": {"bform": "scalar", "cform": null}}}, {"k": "leaf", "id": "b2", "dev": {"cls": "TDevice", "n": 6, "lb": ["3/4", "11/4", "0", "7/4", "7/4", "7/4"], "hb": ["7/2", "7/2", "15/4", "2", "2", "7/2"], "cbs": [], "prm": {"sustainment": "7/8", "efficiency": "11/4", "t_init": "9/4", "t_optimal": "47/2", "t_range": "1/4", "t_external": ["21", "-5/2", "27", "39/2", "17", "11/2"], "c": "1/2"}, "_py": {"bform": "pair", "cform": null}}}], "sub": false}, "n": 6}, "p": ["3/8", "-5/2", "3/2", "-3/2", "-21/8", "3/8"], "sshape": "flat", "stepsize": "7/4", "seed": 389054278, "repeat": 2, "start": ["-2.105506050930447", "-3.899109067677524", "-0.41695968996687827", "-3.1461390439213592", "-1.03673033739872", "-3.191760668932298", "2.2961969811729945", "3.5", "0.29195968996687827", "2.0", "1.97423033739872", "2.3792606689322984"], "family": "corpus"}')
+    return [{'kind': 'real', 'model': m, 'p': '1/2', 'sshape': sh, 'stepsize': '1', 'seed': 7, 'repeat': 3} for sh in ('dev', 'flat')] + [f3, f4]
 
   def cases(self, rng, tier, count):
     out = []
@@ -312,6 +322,9 @@ class C19(Prop):
     N = R*n
     classes = sorted(set(l['dev']['cls'] for l in G.all_leaves(m['tree'])))
     base = {'classes': classes, 'mf': gen.tree_has(m['tree'], 'mf'), 'rows': R, 'sshape': case['sshape'], 'family': case.get('family', 'random')}
+    if not SG.safe_to_solve(dev):        # covers step's projection, my own reference projection, and the limited minimisation
+      self.ev['scipy_unsafe_skipped'] += 1
+      return []
     poly = G.polytope(dev, N)
     if not poly[4]:
       return []
@@ -361,7 +374,10 @@ class C19(Prop):
           st8 = bool((not po.success) and po.status == 8)
         except Exception:
           st8 = False
-        return [{'key': dict(base, kind='infeasible-step', proj_status8=st8),
+        key = dict(base, kind='infeasible-step', proj_status8=st8)
+        if v <= 1e-2:
+          key['viol_le_1e-2'] = True
+        return [{'key': key,
                  'detail': 'step %d returned %s which violates %s by %.3g%s; %s' % (k + 1, nxt.round(6).tolist(), what, v,
                    ' (the projection answered success=False, status 8, which step accepts with a warning)' if st8 else '', where)}]
       c0, c1 = f(cur), f(nxt)
@@ -375,7 +391,7 @@ class C19(Prop):
         case['_active'] = True
         self.ev['strict_checked'] += 1
         if not c1 < c0 - 1e-9*max(1.0, abs(c0)):
-          return [{'key': dict(base, kind='no-progress', licq=G.licq(dev, N, poly, cur)[0]),
+          return [{'key': dict(base, kind='no-progress', licq=G.licq(dev, N, poly, cur)[0], dup=G.parallel_active_pair(dev, N, poly, cur)),
                    'detail': 'step %d made no progress (cost %.12g -> %.12g) although the start is not first-order optimal: projected-gradient residual %.3g, '
                              'LP descent gap %.3g; %s' % (k + 1, c0, c1, resid, gap, where)}]
       cur = nxt
